@@ -9,3 +9,16 @@ package cfeminter
 //@ effects AppModule.BeginBlock bank.mint bank.send
 //@ effects AppModuleBasic.DefaultGenesis nondet.time
 //@ effects BeginBlocker bank.mint bank.send
+
+//@ // ---- C18 / C01: the block's mint event carries exactly the amount by which the supply grew ----
+//@ func BeginBlocker(ctx, k)
+//@   requires validMinters($minterParams.Minters, $minterParams.StartTime) && timeOK($blockTime)
+//@   requires Jstore($minterParams, $minterState)
+//@   requires modaddr(k.collectorName) != modaddr("cfeminter")
+//@   modifies $minterState, $histPresent, $histMinted, $histRemFrom, $histRemTo, $bal, $supply, $evCount, $evTag, $evRef
+//@   ensures $evCount == old($evCount) + 1 && $evTag[old($evCount)] == typeId("*types.Mint")
+//@   ensures ptr("*types.Mint", $evRef[old($evCount)]).Amount == intString($supply[$minterParams.MintDenom] - old($supply[$minterParams.MintDenom]))
+//@   ensures $supply[$minterParams.MintDenom] >= old($supply[$minterParams.MintDenom])
+//@   ensures forall d: str :: {$supply[d]} d != $minterParams.MintDenom ==> $supply[d] == old($supply[d])
+//@   ensures Jstore($minterParams, $minterState)
+//@   prop C18 C01
